@@ -200,6 +200,50 @@ Section C10.
     end.
   Proof. exact (s_reserve_spec ok al v n). Qed.
 
+
+  (** the abort conditions are exact (the specifications above are case
+      distinctions on mutually exclusive conditions) *)
+  Theorem C10_insert_ch_aborts_iff al v pos cnt ch :
+    alloc_ok al -> no_bad_free al -> str_ok al v -> pos < W64 -> cnt < W64 ->
+    (insert_ch ok false al v pos cnt ch = Abt <->
+     s_size v < pos \/ (0 < cnt /\ grow_fails ok al v (s_size v + cnt))).
+  Proof.
+    intros A NB So Hp Hc. pose proof (insert_ch_spec ok al v pos cnt ch A NB So Hp Hc) as H.
+    destruct (insert_ch ok false al v pos cnt ch) as [[al' v']| |]; split; auto; try discriminate; try contradiction.
+    destruct H as (H1 & H2 & _). intros [X|(X1 & X2)]; [lia|]. exfalso. apply (H2 X1 X2).
+  Qed.
+
+  Theorem C10_erase_aborts_iff al v pos len :
+    alloc_ok al -> no_bad_free al -> str_ok al v -> pos < W64 -> len < W64 ->
+    (erase ok false al v pos len = Abt <-> s_size v <= pos).
+  Proof.
+    intros A NB So Hp Hl. pose proof (erase_spec ok al v pos len A NB So Hp Hl) as H.
+    destruct (erase ok false al v pos len) as [[al' v']| |]; split; auto; try discriminate; try contradiction.
+    destruct H as (H1 & _). lia.
+  Qed.
+
+  Theorem C10_resize_aborts_iff al v n :
+    alloc_ok al -> no_bad_free al -> str_ok al v -> n < W64 ->
+    (s_resize ok false al v n = Abt <-> grow_fails ok al v n).
+  Proof.
+    intros A NB So Hn. pose proof (s_resize_spec ok al v n A NB So Hn) as H.
+    destruct (s_resize ok false al v n) as [[al' v']| |]; split; auto; try discriminate; try contradiction.
+    destruct H as (_ & _ & _ & _ & _ & NF & _). intros X. contradiction.
+  Qed.
+
+  (** nothing leaks: in a state satisfying the invariant, once every string
+      has been cleared no block is live (and no bad free ever happened) *)
+  Theorem C10_no_leak s :
+    ssys_ok s ->
+    no_bad_free (heap s) /\
+    match fst (run (VectorModel.step ok false) s (map Clear (seq 0 (length (vecs s))))) with
+    | Done s' _ => live (heap s') = []
+    | _ => False
+    end.
+  Proof.
+    intros (Sy & _). split; [apply Sy|]. apply clear_all_no_leak; auto.
+  Qed.
+
   (** at: aborts iff the index is not below the size *)
   Theorem C10_at al v i :
     str_ok al v ->
@@ -292,6 +336,10 @@ Print Assumptions C10_resize.
 Print Assumptions C10_resize_size_max_aborts.
 Print Assumptions C10_unrepresentable_storage_aborts.
 Print Assumptions C10_reserve.
+Print Assumptions C10_insert_ch_aborts_iff.
+Print Assumptions C10_erase_aborts_iff.
+Print Assumptions C10_resize_aborts_iff.
+Print Assumptions C10_no_leak.
 Print Assumptions C10_at.
 Print Assumptions C10_find_ch.
 Print Assumptions C10_find_str.
